@@ -79,8 +79,15 @@ fn check_total<const B: usize>(buf: &[u8; B], i: usize, r: &Result<usize, (u8, u
 /// Yacc layout, written from the lexical conventions: blanks; newlines iff allowed; `//` to end of
 /// line; `/*` to the NEXT `*/` and nothing else; a lone `/` ends the skip.
 /// Ok(offset) or Err((kind, position)).
-fn ref_ws<const B: usize>(b: &[u8; B], mut i: usize, inc: bool) -> Result<usize, (u8, usize)> {
+fn ref_ws<const B: usize>(b: &[u8; B], i: usize, inc: bool) -> Result<usize, (u8, usize)> {
+    ref_ws_nl(b, i, inc).map(|(j, _)| j)
+}
+
+/// As `ref_ws`, also telling whether a line end was crossed (a newline skipped as layout, the
+/// newline ending a `//` comment, or a newline inside a block comment).
+fn ref_ws_nl<const B: usize>(b: &[u8; B], mut i: usize, inc: bool) -> Result<(usize, bool), (u8, usize)> {
     let n = B;
+    let mut crossed = false;
     let mut guard = 0;
     while i < n && guard <= B {
         guard += 1;
@@ -91,6 +98,7 @@ fn ref_ws<const B: usize>(b: &[u8; B], mut i: usize, inc: bool) -> Result<usize,
             if !inc {
                 return Err((yp::REACHED_EOL, i));
             }
+            crossed = true;
             i += 1;
         } else if c == b'/' {
             if i + 1 == n {
@@ -102,6 +110,7 @@ fn ref_ws<const B: usize>(b: &[u8; B], mut i: usize, inc: bool) -> Result<usize,
                     let d = b[i];
                     i += 1;
                     if d == b'\n' || d == b'\r' {
+                        crossed = true;
                         break;
                     }
                 }
@@ -110,8 +119,11 @@ fn ref_ws<const B: usize>(b: &[u8; B], mut i: usize, inc: bool) -> Result<usize,
                 let mut k = i + 2;
                 let mut found = false;
                 while k < n {
-                    if (b[k] == b'\n' || b[k] == b'\r') && !inc {
-                        return Err((yp::REACHED_EOL, st));
+                    if b[k] == b'\n' || b[k] == b'\r' {
+                        if !inc {
+                            return Err((yp::REACHED_EOL, st));
+                        }
+                        crossed = true;
                     }
                     if b[k] == b'*' && k + 1 < n && b[k + 1] == b'/' {
                         i = k + 2;
@@ -130,7 +142,7 @@ fn ref_ws<const B: usize>(b: &[u8; B], mut i: usize, inc: bool) -> Result<usize,
             break;
         }
     }
-    Ok(i)
+    Ok((i, crossed))
 }
 
 // ---- harness families ------------------------------------------------------------------------------
@@ -177,10 +189,14 @@ macro_rules! c10_ws {
                 bounds[oi]
             };
             let inc: bool = kani::any();
-            let got = yp::parse_ws(s, i, inc);
-            let exp = ref_ws(&buf, i, inc);
+            let (got, newlines) = yp::parse_ws_newlines(s, i, inc);
+            let exp = ref_ws_nl(&buf, i, inc);
             match (got, exp) {
-                (Ok(a), Ok(b)) => assert!(a == b, "layout skipped up to the same offset as the reference"),
+                (Ok(a), Ok((b, crossed))) => {
+                    assert!(a == b, "layout skipped up to the same offset as the reference");
+                    // callers learn "a line end was crossed" by comparing the newline counter
+                    assert!((newlines > 0) == crossed, "line end crossed iff the newline counter grew");
+                }
                 (Err((k, a, _)), Err((rk, ra))) => {
                     assert!(k == rk, "same error kind as the reference");
                     assert!(a == ra, "same error position as the reference");
@@ -188,7 +204,7 @@ macro_rules! c10_ws {
                 (Ok(_), Err(_)) => assert!(false, "accepted layout the reference rejects"),
                 (Err(_), Ok(_)) => assert!(false, "rejected layout the reference accepts"),
             }
-            kani::cover!(matches!(exp, Ok(j) if j == $b && i == 0), "whole text is layout");
+            kani::cover!(matches!(exp, Ok((j, _)) if j == $b && i == 0), "whole text is layout");
             kani::cover!(matches!(exp, Err((k, _)) if k == yp::REACHED_EOL), "newline where none is allowed");
             if $witness {
                 assert!(false, "reachability witness");
@@ -241,6 +257,9 @@ const DIG_A: [u8; 10] = [b'0', b'1', b'2', b'3', b'4', b'5', b'6', b'7', b'8', b
 // name, concrete prefix, its length, widths, chars, total bytes, alphabet, its size, unwind (= bytes + 2)
 c12_ws!(c12_ws_f3, [], 0, [1, 1, 1], 3, 3, WS_A, 5, false, 5);
 c12_ws!(c12_ws_f4, [], 0, [1, 1, 1, 1], 4, 4, WS_A, 5, false, 6);
+c12_ws!(c12_ws_block2, [b'/', b'*'], 2, [1, 1], 2, 4, WS_A, 5, true, 6);
+c12_ws!(c12_ws_line2, [b'/', b'/'], 2, [1, 1], 2, 4, WS_A, 5, true, 6);
+c12_ws!(c12_ws_mb3, [], 0, [1, 2, 1], 3, 4, WS_A, 5, false, 6);
 c12_ws!(c12_ws_block3, [b'/', b'*'], 2, [1, 1, 1], 3, 5, WS_A, 5, true, 7);
 c12_ws!(c12_ws_line3, [b'/', b'/'], 2, [1, 1, 1], 3, 5, WS_A, 5, true, 7);
 c12_ws!(c12_ws_mb, [], 0, [1, 2, 1, 1], 4, 5, WS_A, 5, false, 7);
@@ -250,6 +269,9 @@ c12_ws!(c12_ws_f5, [], 0, [1, 1, 1, 1, 1], 5, 5, WS_A, 5, false, 7);
 c10_ws!(c10_ws_f3, [], 0, [1, 1, 1], 3, 3, WS_A2, 7, false, 5, false);
 c10_ws!(c10_ws_f4, [], 0, [1, 1, 1, 1], 4, 4, WS_A, 5, false, 6, false);
 c10_ws!(c10_ws_block2, [b'/', b'*'], 2, [1, 1], 2, 4, WS_A, 5, true, 6, false);
+c10_ws!(c10_ws_star2, [b'/', b'*', b'*'], 3, [1, 1], 2, 5, WS_A, 5, true, 7, false);
+c10_ws!(c10_ws_line2, [b'/', b'/'], 2, [1, 1], 2, 4, WS_A, 5, true, 6, false);
+c10_ws!(c10_ws_star3, [b'/', b'*', b'*'], 3, [1, 1, 1], 3, 6, WS_A, 5, true, 8, false);
 c10_ws!(c10_ws_block3, [b'/', b'*'], 2, [1, 1, 1], 3, 5, WS_A, 5, true, 7, false);
 c10_ws!(c10_ws_line3, [b'/', b'/'], 2, [1, 1, 1], 3, 5, WS_A, 5, true, 7, false);
 c10_ws!(c10_ws_mb, [], 0, [1, 1, 3, 1], 4, 6, WS_A, 5, false, 8, false);
